@@ -332,6 +332,23 @@ def run(repo, res, tier):
     res.rule("W4-CLOCK", "no ambient read on the write path other than the date stamp", 1)
     handle_path_rule(repo, res)
 
+    # ---------------- W5: writing does not change what is written.  A writer that writes into the scenario or the
+    # planning problems it is exporting gives another content the second time; the effect analysis of C18 (PURE-HOST)
+    # is applied to every function of the writer modules.
+    from . import c18
+
+    res.rule("W5-NO-MUTATION", "no function of the file writers writes into a model object", 100)
+    pur = c18.Purity(repo, res)
+    _model, host = c18.entry_points(repo)
+    for fk, cat in host:
+        if "/writer/" not in fk.mod.rel:
+            continue
+        vs = pur.violations(fk)
+        if not vs:
+            res.ok("W5-NO-MUTATION", "%s (%s)" % (fk.name, cat))
+        for node, construct, why in vs:
+            res.bad("W5-NO-MUTATION", "%s (%s)" % (fk.name, cat), Finding("W5-NO-MUTATION", fk.mod, node, "%s: %s" % (fk.name, construct), "writing changes the model it writes, so writing twice with the same writer gives different content: %s" % why, qualname=fk.name))
+
     imod = repo.mod(WI)
     # module-level mutable cells: names bound to a class (used as a namespace) or instance at module level
     CELLS.clear()
@@ -417,11 +434,11 @@ def run(repo, res, tier):
                 raise AnalysisError("%s: no file sink found" % qn)
             for s_ in sink_sites:
                 guards = [(norm(t), pol) for t, pol in dominating_guards(mod, s_, stop=fn)]
-                via_helper = (("filename", True) in guards or ("not filename", False) in guards) and any(isinstance(st, ast.Assign) and norm(st.value).startswith("self._handle_file_path(") and norm(st.targets[0]) == "filename" and st.lineno < s_.lineno for st in top)
+                # order by position in the body, not by line: inlined statements keep the lines of where they were written
+                at = [i for i, st in enumerate(top) if any(n is s_ for n in ast.walk(st))][0]
+                via_helper = (("filename", True) in guards or ("not filename", False) in guards) and any(isinstance(st, ast.Assign) and norm(st.value).startswith("self._handle_file_path(") and norm(st.targets[0]) == "filename" for st in top[:at])
                 inline = False
-                for st in top:
-                    if st.lineno >= s_.lineno:
-                        break
+                for st in top[:at]:
                     if isinstance(st, ast.If) and ("is_file()" in norm(st.test) or "exists(" in norm(st.test)):
                         for r in ast.walk(st):
                             if isinstance(r, ast.Return) and _says_skip([(t, pol) for t, pol in dominating_guards(mod, r, stop=fn)]):
